@@ -842,7 +842,63 @@ func verdictFacts() string {
 		sb.WriteString("\n/-- the same grid on sessions that use the WebSocket subprotocol -/\ndef readerVerdictsWs : Option (List (String × Nat × String)) := some [\n  " + strings.Join(wrows, ",\n  ") + "]\n")
 	}
 	sb.WriteString(headerFacts())
+	sb.WriteString(deadlineFacts())
 	return sb.String()
+}
+
+// deadlineFacts runs real sessions whose first handler makes every sequence of up to three
+// SetCloseDeadline calls (1 = a time in the future, 2 = in the past, 3 = in the near future and
+// wait until it has passed) and observes whether the session's input context has ended when the
+// handler returns: Serve then gives up with the deadline error before the second element.
+func deadlineFacts() string {
+	var seqs []string
+	var rec func(p string)
+	rec = func(p string) {
+		seqs = append(seqs, p)
+		if len(p) == 3 {
+			return
+		}
+		for _, d := range []string{"1", "2", "3"} {
+			rec(p + d)
+		}
+	}
+	rec("")
+	rows := make([]string, len(seqs))
+	okAll := true
+	var wg sync.WaitGroup
+	var mu sync.Mutex
+	for i, q := range seqs {
+		i, q := i, q
+		wg.Add(1)
+		go func() {
+			defer wg.Done()
+			res := Serve(NSClient, LocalJID, RemoteJID, []byte(`<message id="d1"/><message id="d2"/></stream:stream>`), []Prog{{Ret: "ok", DlSeq: q}}, nil)
+			cls := ErrClass(res.Err)
+			var v string
+			switch {
+			case res.Panic != "" || res.Stall:
+			case cls == "deadline" && len(res.Invs) == 1:
+				v = "true"
+			case cls == "clean" && len(res.Invs) == 2:
+				v = "false"
+			}
+			var el []string
+			for _, c := range q {
+				el = append(el, string(c))
+			}
+			mu.Lock()
+			if v == "" {
+				okAll = false
+			}
+			rows[i] = fmt.Sprintf("([%s], %s)", strings.Join(el, ", "), v)
+			mu.Unlock()
+		}()
+	}
+	wg.Wait()
+	if !okAll {
+		return "\ndef deadlineVerdicts : Option (List (List Nat × Bool)) := none\n"
+	}
+	return "\n/-- has the input context of a real session ended after its handler made this sequence of\nSetCloseDeadline calls (1 future, 2 past, 3 near future and wait): all sequences of length <= 3 -/\ndef deadlineVerdicts : Option (List (List Nat × Bool)) := some [\n  " + strings.Join(rows, ",\n  ") + "]\n"
 }
 
 // verdictGrid is the grid token kind x depth of verdictFacts on sessions with the WebSocket flag ws.
